@@ -93,3 +93,27 @@ REG.add(Contract(F_TR, 'TableReaderBase.getValue',
     requires=lambda v: [z3.Length(v.self) >= 1] + sorted_data(v.self) + bisect_axioms(v.self, v.x),
     ensures=_value_post, post_names=['zero-outside', 'tabulated-y-at-tabulated-x', 'chord-between-neighbours'],
     instantiate_int_foralls=True, carries=['post'], props=['C18']))
+
+# ---------------------------------------------------------------- DatReader._populate: the data are the (x, y) pairs of the data lines, sorted
+from pyvc.spec import FilterSeq
+from pyvc.symexec import strip_ws, sorted_seq_fn
+REG.add_class(ClassDecl('<ext>', 'TextLines', {}, external=True))
+TL = ObjSort('TextLines'); lines_of = z3.Function('lines_of', TL, StrList)
+REG.add(Contract('<ext>', 'TextLines.__iter__', params=[('self', T.Obj('TextLines'))], result=T.List(T.Str), ensures=lambda v, old, res: [res == lines_of(v.self)], external=True,
+    note='iterating a text file object yields its lines in order', props=['C18']))
+def is_data(l): s_ = strip_ws(l); return z3.And(z3.Length(s_) > 0, z3.SubString(s_, 0, 1) != z3.StringVal('#'))      # not blank, not a comment
+def row_of(l):
+    ts = split_ws(strip_ws(l))
+    return XYS.mk(str_to_real(ts[0]), str_to_real(ts[1]))
+data_rows = FilterSeq('dat_rows', [StrList], lambda ls, k: is_data(ls[k]), lambda ls, k: row_of(ls[k]), XYS)
+def wellformed_file(ls):
+    """every data line has at least two tokens and its first two tokens are numbers (anything else makes float() / the unpacking fail)"""
+    k = z3.Int('k!w'); ts = split_ws(strip_ws(ls[k]))
+    return z3.ForAll([k], z3.Implies(z3.And(0 <= k, k < z3.Length(ls), is_data(ls[k])), z3.And(z3.Length(ts) >= 2, parses_float(ts[0]), parses_float(ts[1]))))
+REG.add_class(ClassDecl(F_TR, 'DatReader', {}, bases=('TableReaderBase',)))
+REG.add(Contract(F_TR, 'DatReader._populate', params=[('self', T.ListObj('DatReader', XY)), ('fileobj', T.Obj('TextLines'))], modifies=['self'],
+    requires=lambda v: [wellformed_file(lines_of(v.fileobj))],
+    ensures=lambda v, old, res: [v.self == z3.Concat(old.self, sorted_seq_fn(XYList)(data_rows(lines_of(v.fileobj), z3.Length(lines_of(v.fileobj)))))],
+    post_names=['the-sorted-(x,y)-pairs-of-the-data-lines-are-appended'],
+    invariants={0: lambda v, old: [v.results == data_rows(lines_of(v.fileobj), v._i0), v.self == old.self]}, ghost={'results': XY}, instantiate_int_foralls=True,
+    raises_when=lambda v, old, exc: [z3.BoolVal(False)], carries=['post', 'preserve/0'], props=['C18']))
